@@ -29,7 +29,7 @@ from .. import REPO, VERIF_DIR
 from ..core import check, short
 from ..gen import expr as G
 from ..mon.trace import HandlerTrace
-from ..mon.typedkeys import KF_TWINS, has_twins, typed
+from ..mon.typedkeys import KF_TWINS, has_twins, refkeys, typed
 from ..ref import normal, refsem
 
 RULE = ("histories of 2-30 calls on ONE memoizing mapper instance, drawn from a pool of <= 12 "
@@ -243,8 +243,9 @@ def c_history(ctx, case):
             finding = None
             if twins:
                 # explanation test: the same history with ONLY the memo keys made typed
-                j = replay(name, mk, fresh, takes_args, typed)[0]
-                if j is None:
+                # ... and the documented ==-keys, re-implemented here, fail at the same call
+                if replay(name, mk, fresh, takes_args, typed)[0] is None \
+                        and replay(name, mk, fresh, takes_args, refkeys)[0] == i:
                     finding = KF_TWINS
             e, a, kw = call
             ctx.fail("C05.history", case, f"{name}:differs",
@@ -289,7 +290,8 @@ def c_history(ctx, case):
         ctx.count("pair:walk")
         probs = walks(same)
         if probs:
-            finding = KF_TWINS if twins and not walks(typed) else None
+            finding = KF_TWINS if twins and not walks(typed) \
+                and [x[0] for x in walks(refkeys)] == [x[0] for x in probs] else None
             for sig, detail in probs:
                 ctx.fail("C05.history", case, sig, detail, finding=finding)
     except (TypeError, NotImplementedError, ValueError):
@@ -303,7 +305,7 @@ ALL32 = [dict(zip(OPTS, bits)) for bits in itertools.product([False, True], repe
 
 
 def admissible(subject, o):
-    if subject in ("OptCachedRenamer", "OptCachedCounter"):
+    if subject in ("OptCachedRenamer", "OptCachedCounter", "OptCachedWalker"):
         return True
     if subject == "OptArgRenamer":
         return not (o["drop_args"] or o["drop_kwargs"] or o["inline_cache"])
@@ -344,7 +346,7 @@ def c_optimize(ctx, case):
             on = [k for k, v in r["options"].items() if v]
             finding = None
             if (r["options"]["inline_rec"] and not r["options"]["inline_cache"]
-                    and r["subject"] == "OptCachedCounter"
+                    and r["subject"] in ("OptCachedCounter", "OptCachedWalker")
                     and all(pr.startswith("handler entries:") for pr in r["problems"])):
                 finding = KF_INLINE_REC
             earlier = [(j["subject"], [k for k, v in j["options"].items() if v]) for j in res[:i]]
@@ -372,6 +374,17 @@ def workload(ctx):
                    [tg.int(rng.randint(1, 3)) for _ in range(3)] + \
                    [4, 4.0, True, (4, V["x"]), (V["y"], 4.0), p.Call(V["f"], (4, 4.0, True))]
             pool += [G.deep_rebuild(pool[0]), pool[1]]
+            if i % 4 == 1:      # wrappers that differ only in their prefix (distinct nodes)
+                child = rng.choice([pool[4], p.Sum((V["x"], V["y"])), p.Product((2, V["z"]))])
+                pool += [p.CommonSubexpression(child, "pa"),
+                         p.Sum((p.CommonSubexpression(child, "pb"), V["a"]))]
+            if i % 4 == 2:      # distinct keys with EQUAL HASHES: hash(-1) == hash(-2),
+                #                     hash(n) == hash(n + 2**61 - 1); node hashes inherit this
+                c1, c2 = rng.choice([(-1, -2), (5, 5 + 2**61 - 1), (-2, -1)])
+                sh = rng.choice([lambda c: p.Product((c, V["x"])), lambda c: p.Subscript(V["a"], c),
+                                 lambda c: p.Sum((V["y"], p.Power(c, 2))), lambda c: c,
+                                 lambda c: p.Call(V["f"], (V["x"], c))])
+                pool += [sh(c1), sh(c2)]
             if i % 4 == 0:      # typed twins: == composites that differ in a constant's type
                 c1, c2 = rng.choice([(4, 4.0), (1, True), (0, False), (2.0, 2)])
                 sh = rng.choice([lambda c: p.Sum((V["x"], c)), lambda c: p.Power(c, 3),
@@ -382,7 +395,8 @@ def workload(ctx):
             if has_twins(*pool):
                 ctx.count("pools_with_typed_twins")
             hist = [(rng.randrange(len(pool)), rng.choice(ARGT),
-                     rng.choice([{}, {}, {"suffix": "_s"}])) for _ in range(rng.randint(2, 30))]
+                     rng.choice([{}, {}, {"suffix": "_s"}, {"suffix": "_t"}]))
+                    for _ in range(rng.randint(2, 30))]
             flags = dict(include_subscripts=rng.random() < .5, include_lookups=rng.random() < .5,
                          include_calls=rng.choice([True, False, "descend_args"]),
                          include_cses=rng.random() < .5)
@@ -396,13 +410,15 @@ def workload(ctx):
             ctx.count("handler:" + k, v)
         ctx.count("handler:CachedMapper.get_cache_key", tr.counts.get("CachedMapper.get_cache_key", 0))
     # optimizer: each admissible combination alone in a fresh process
-    subjects = ["OptCachedRenamer", "OptCachedCounter", "OptArgRenamer", "OptPlainRenamer",
-                "OptArgPlain"]
+    subjects = ["OptCachedRenamer", "OptCachedCounter", "OptCachedWalker", "OptArgRenamer",
+                "OptPlainRenamer", "OptArgPlain"]
     singles = [(s, o) for s in subjects for o in ALL32 if admissible(s, o)]
     skipped = sum(1 for s in subjects for o in ALL32 if not admissible(s, o))
     ctx.count("optimizer_combinations_outside_precondition", skipped if ctx.shard == 0 else 0)
     quick_singles = singles if ctx.thorough else \
         [x for x in singles if x[0] in ("OptCachedRenamer", "OptArgRenamer")] + \
+        [x for x in singles if x[0] == "OptCachedWalker" and x[1]["inline_cache"]
+         and not (x[1]["drop_args"] ^ x[1]["drop_kwargs"])] + \
         rng.sample([x for x in singles if x[0] not in ("OptCachedRenamer", "OptArgRenamer")], 8)
     for s, o in quick_singles:
         if ctx.mine("opt-single"):
